@@ -1,0 +1,45 @@
+// Copyright ©2012 The bíogo Authors. All rights reserved.
+// Use of this source code is governed by a BSD-style
+// license that can be found in the LICENSE file.
+
+//go:build verif
+
+// Contracts for the hvc verifier (see /verif/DESIGN.md). This file contains
+// comments only; it adds nothing to the package.
+package bgzf
+
+// compressor.writeBlock (C08): the gzip member it leaves in c.buf carries the
+// BC extra subfield as its first extra subfield, and the BSIZE value patched
+// into that subfield is the length of the member minus one, which fits 16 bits.
+//
+// compress/gzip is a dependency: what it writes is assumed, not proved. The
+// assumption (RFC 1952 section 2.3, and gzip.Writer writing Header.Extra
+// verbatim after the two byte XLEN field) is stated once, at the point where
+// the member's bytes are taken from the buffer.
+//@ table bgzfExtraPrefix
+//@ trusted func ext:compress/gzip.NewWriterLevel
+//@   ensures result1 == nil ==> (result0 != nil && fresh(result0))
+//@ trusted func ext:compress/gzip.Writer.Reset
+//@   modifies all(z)
+//@ trusted func ext:compress/gzip.Writer.Write
+//@   modifies all(z)
+//@ trusted func ext:compress/gzip.Writer.Close
+//@   modifies all(z)
+//@ trusted func ext:bytes.Buffer.Bytes
+//@ trusted func ext:bytes.Index
+//@   ensures result == 0 - 1 || (0 <= result && result + len(sep) <= len(s))
+//@   ensures result >= 0 ==> forall k in 0..len(sep) :: s[result+k] == sep[k]
+//@   ensures result >= 0 ==> forall j in 0..result :: exists k in 0..len(sep) :: s[j+k] != sep[k]
+//@   ensures result < 0 ==> forall j in 0..len(s) - len(sep) + 1 :: exists k in 0..len(sep) :: s[j+k] != sep[k]
+
+//@ func compressor.writeBlock
+//@   mode int
+//@   props C08
+//@   channels ignored
+//@   requires c != nil && c.Header != nil && 0 <= c.next && c.next <= 65280 && len(c.Header.Extra) <= 65000
+//@   modifies c.gz, c.err, c.next, all(c.gz), arrays(byte)
+//@   ghost gb []byte
+//@   at stmt "b := c.buf.Bytes()" ghost gb = ret
+//@   at stmt "b := c.buf.Bytes()" assume len(ret) >= 18 && ret[0] == 31 && ret[1] == 139 && ret[2] == 8 && ret[3] < 32 &&
+//@       (ret[8] == 0 || ret[8] == 2 || ret[8] == 4) && ret[12] == 66 && ret[13] == 67 && ret[14] == 2 && ret[15] == 0
+//@   ensures[C08] @bsize c.err == nil ==> (len(gb) - 1 < 65536 && int(gb[16]) + 256 * int(gb[17]) == len(gb) - 1)
